@@ -17,3 +17,8 @@ def run(ctx):
     _parser.t11(ctx, only_strip=True)      # the round trip needs the parser to keep a trailing blank (printable, shown unescaped)
     from ..rules import host as _host
     _host.ord5_set_aside(ctx)       # ... and to accept the decoded non-ASCII userinfo it shows next to '@' and ':'
+    # human_repr() assembles its authority with the shared printer helper: an explicit port 0 must be written (0 is not "absent")
+    from ..rules import port as _port
+    from .common import authority_function, claim_in
+    claim_in(ctx, ("SH5",), authority_function, "the functions that split and assemble the authority")
+    _port.sh5(ctx)
